@@ -144,6 +144,7 @@ struct OpResult { uint64_t bits = 0; std::string exc; bool skipped = false;
 struct Context { Model slot[NSLOTS]; ~Context() { for (auto& s : slot) s.reset(); } };
 
 Model g_shared[NSHARED];
+gm2calc::SM* g_shared_sm = nullptr; std::string g_shared_sm_bytes; ///< one SM object shared by all tasks (plan line "sharedsm <seed>")
 struct SharedSnap { std::string bytes; uint64_t getters = 0; std::string text; };
 SharedSnap g_shared_snap[NSHARED];
 
@@ -257,6 +258,7 @@ void build_model(Model& out, const std::string& kind, uint64_t arg, int near = 0
    else if (kind == "thdm") { ops::ThdmPoint p = thdm_point(arg); perturb(p, near); out.t = ops::make_thdm(p); }
    else if (kind == "mssm_edge") { auto it = g_edge_mssm.find(arg); ops::MssmPoint p = it != g_edge_mssm.end() ? it->second : mssm_point(arg); perturb(p, near); out.m = ops::make_mssm(p); }
    else if (kind == "thdm_edge") { auto it = g_edge_thdm.find(arg); ops::ThdmPoint p = it != g_edge_thdm.end() ? it->second : thdm_point(arg); perturb(p, near); out.t = ops::make_thdm(p); }
+   else if (kind == "thdm_ssm") { ops::ThdmPoint p = thdm_point(arg); perturb(p, near); out.t = g_shared_sm ? ops::make_thdm_with_sm(p, *g_shared_sm) : ops::make_thdm(p); }
    else if (kind == "cmssm") { ops::MssmPoint p = mssm_point(arg); perturb(p, near); out.m = ops::make_mssm_c(p); out.via_c = true; }
    else if (kind == "cthdm") { ops::ThdmPoint p = thdm_point(arg); perturb(p, near); if (p.yukawa_type >= 1 && p.yukawa_type <= 6) { out.t = ops::make_thdm_c(p); out.via_c = true; } else out.t = ops::make_thdm(p); }
    else if (kind == "slha" && !g_corpus.empty()) { const CorpusFile& f = g_corpus[arg % g_corpus.size()]; ops::make_from_slha(f.bytes, f.type, &out.m, &out.t); }
@@ -379,6 +381,15 @@ OpResult exec_op_inner(Context& c, const std::vector<std::string>& t, std::vecto
          double as = g.uniform(0.11, 0.125);
          if (t.size() > 2) { static const double mag[] = {2.220446049250313e-16, 1e-12, 1e-7}; as *= 1.0 + mag[sim::iparse(t[2]) % 3]; } // neighbour of an earlier call
          r.bits = sim::bits(ops::sm_ops(wl, wa, wr, we, mz, as));
+      } else if (t[0] == "smh" && t.size() >= 2) {
+         bool same = true;
+         r.bits = ops::sm_history((uint64_t)std::strtoull(t[1].c_str(), nullptr, 0), &same);
+         if (!same) modified.push_back("history-dependent:sm_getters");
+      } else if (t[0] == "evsm") {
+         if (!g_shared_sm) { r.skipped = true; return r; }
+         const std::string before((const char*)g_shared_sm, ops::sizeof_sm());
+         r.bits = ops::sm_getters(*g_shared_sm);
+         if (std::string((const char*)g_shared_sm, ops::sizeof_sm()) != before) modified.push_back("shared_sm_getters");
       } else if (t[0] == "ff" && t.size() >= 2) {
          sim::Rng g((uint64_t)std::strtoull(t[1].c_str(), nullptr, 0));
          const double x = g.loguniform(1e-3, 1e3), y = g.chance(0.15) ? x : g.loguniform(1e-3, 1e3), z = g.chance(0.15) ? 1.0 : g.loguniform(1e-3, 1e3);
@@ -405,6 +416,7 @@ struct Plan {
    std::vector<std::pair<std::string, uint64_t>> shared;        // kind, arg
    std::vector<std::vector<std::vector<std::string>>> tasks;   // task -> ops -> tokens
    int seq_variant = 0;                                         // 0 reverse order, 1 repeat twice
+   uint64_t shared_sm_seed = 0;                                 // 0 = no shared SM object
 };
 
 Plan parse_plan(const std::vector<std::string>& lines)
@@ -418,6 +430,8 @@ Plan parse_plan(const std::vector<std::string>& lines)
          for (int s = 0; s < thrsim::N_STRATEGIES; ++s) if (t[2] == thrsim::strategy_name(s)) p.cfg.strategy = s;
          p.cfg.quantum = sim::dparse(t[3]); p.cfg.pct_depth = (int)sim::iparse(t[4]); p.cfg.seed = std::strtoull(t[5].c_str(), nullptr, 0);
          if (t.size() > 6) p.seq_variant = (int)sim::iparse(t[6]);
+      } else if (t[0] == "sharedsm" && t.size() >= 2) {
+         p.shared_sm_seed = std::strtoull(t[1].c_str(), nullptr, 0) | 1;
       } else if (t[0] == "shared" && t.size() >= 4) {
          const size_t k = (size_t)(sim::iparse(t[1]) % NSHARED);
          if (p.shared.size() <= k) p.shared.resize(k + 1, {"", 0});
@@ -468,6 +482,8 @@ std::vector<std::string> gen_plan(uint64_t seed, std::string* mode_out)
       if (kind == 0) { const int n = ops::n_mssm_fns(); return ops::mssm_fn_name(r.chance(0.5) ? (int)r.below(17) % n : (int)r.below(n)); }
       const int n = ops::n_thdm_fns(); return ops::thdm_fn_name((int)r.below(n));
    };
+   const bool have_ssm = r.chance(0.4);
+   if (have_ssm) p.push_back("sharedsm " + std::to_string(r.next() >> 1));
    const int hammer_k = (int)r.below(nshared);
    const std::string hammer_fn = fn_for(shared_kind[hammer_k]);
    size_t budget_ops = 96; // keeps a run below ~2M events
@@ -485,6 +501,8 @@ std::vector<std::string> gen_plan(uint64_t seed, std::string* mode_out)
          default: what = (int)r.weighted({3, 1.5, 6, 1, 0.7, 0.7, 0, 1.2, 0.5}); break;
          }
          const int sl = (int)r.below(NSLOTS);
+         if (r.chance(0.06)) { p.push_back(T + "smh " + std::to_string(r.next() >> 1)); continue; }
+         if (have_ssm && r.chance(0.12)) { if (r.chance(0.6)) p.push_back(T + "evsm"); else { slot_kind[sl] = 1; p.push_back(T + "mk " + std::to_string(sl) + " thdm_ssm " + std::to_string(r.next() >> 1)); } continue; }
          switch (what) {
          case 0: { const int kind = r.chance(0.5) ? 1 : 0; slot_kind[sl] = kind; if (r.chance(0.12)) p.push_back(T + "mk " + std::to_string(sl) + (kind ? " thdm_edge " : " mssm_edge ") + std::to_string(r.next() >> 1));
                    else p.push_back(T + "mk " + std::to_string(sl) + (r.chance(0.25) ? (kind ? " cthdm " : " cmssm ") : (kind ? " thdm " : " mssm ")) + point_arg(kind)); } break;
@@ -539,7 +557,7 @@ void task_body(int me, void* a)
    thrsim::op_boundary((int)prog.size());
 }
 
-std::string op_name(const std::vector<std::string>& t) { return t[0] == "ev" ? t[1] : t[0] == "mk" ? "construct_" + t[2] + (t.size() > 4 ? "_neighbour_point" : "") : t[0] == "cp" ? "copy" : t[0] == "pr" ? "operator<<" : t[0] == "sm" ? "sm_layer" : t[0] == "ff" ? "loop_functions" : t[0] == "mu" ? "mutate_own_model" : t[0]; }
+std::string op_name(const std::vector<std::string>& t) { return t[0] == "ev" ? t[1] : t[0] == "mk" ? "construct_" + t[2] + (t.size() > 4 ? "_neighbour_point" : "") : t[0] == "cp" ? "copy" : t[0] == "pr" ? "operator<<" : t[0] == "sm" ? "sm_layer" : t[0] == "ff" ? "loop_functions" : t[0] == "smh" ? "sm_object_history" : t[0] == "evsm" ? "shared_sm_getters" : t[0] == "mu" ? "mutate_own_model" : t[0]; }
 
 RunOut run_plan(const std::vector<std::string>& lines, uint64_t run_index)
 {
@@ -560,6 +578,8 @@ RunOut run_plan(const std::vector<std::string>& lines, uint64_t run_index)
       for (auto& task : plan.tasks) for (auto& op : task) if (op.size() >= 4 && op[0] == "mk") want(op[2], (uint64_t)std::strtoull(op[3].c_str(), nullptr, 0));
    }
    g_prog.set(run_index, 0, "setup");
+   if (g_shared_sm) { ops::destroy(g_shared_sm); g_shared_sm = nullptr; }
+   if (plan.shared_sm_seed) { g_shared_sm = ops::make_shared_sm(plan.shared_sm_seed); g_shared_sm_bytes.assign((const char*)g_shared_sm, ops::sizeof_sm()); }
    // shared models are built by the main thread before any task starts
    for (int k = 0; k < NSHARED; ++k) { g_shared[k].reset(); g_shared_snap[k] = SharedSnap(); }
    for (size_t k = 0; k < plan.shared.size() && k < (size_t)NSHARED; ++k) {
@@ -599,7 +619,7 @@ RunOut run_plan(const std::vector<std::string>& lines, uint64_t run_index)
       // reverse task order, and inside each task every maximal run of consecutive read-only operations
       // (evaluate / print / SM layer) in reverse order: read-only operations commute, so every result
       // must be the same -- this is the "does not depend on what was computed before" clause inside one thread
-      auto read_only = [](const std::vector<std::string>& op) { return op[0] == "ev" || op[0] == "pr" || op[0] == "sm" || op[0] == "ff"; };
+      auto read_only = [](const std::vector<std::string>& op) { return op[0] == "ev" || op[0] == "pr" || op[0] == "sm" || op[0] == "ff" || op[0] == "smh" || op[0] == "evsm"; };
       for (int i = nt - 1; i >= 0; --i) {
          Context ctx;
          const auto& prog = plan.tasks[i];
@@ -618,7 +638,7 @@ RunOut run_plan(const std::vector<std::string>& lines, uint64_t run_index)
          for (size_t k = 0; k < plan.tasks[i].size(); ++k) {
             const auto& op = plan.tasks[i][k];
             OpResult first = exec_op(ctx, op, mod_a[i]);
-            if (op[0] == "ev" || op[0] == "pr" || op[0] == "sm" || op[0] == "ff") { // repeatable without changing the context
+            if (op[0] == "ev" || op[0] == "pr" || op[0] == "sm" || op[0] == "ff" || op[0] == "smh" || op[0] == "evsm") { // repeatable without changing the context
                OpResult second = exec_op(ctx, op, mod_a[i]);
                if (!(first == second) && out.sig.empty()) { out.sig = "mismatch:repeat:" + op_name(op); out.detail = "task " + std::to_string(i) + " op " + std::to_string(k) + ": two calls in a row returned different results"; }
             }
@@ -664,11 +684,13 @@ RunOut run_plan(const std::vector<std::string>& lines, uint64_t run_index)
    // (3) argument preservation
    for (auto* mods : {&mod_c, &mod_s, &mod_a}) for (int i = 0; i < nt; ++i) if (!(*mods)[i].empty()) {
       const std::string& w = (*mods)[i][0];
-      if (w.compare(0, 11, "global_env:") == 0) { out.sig = "modified:" + w; out.detail = "an operation left process/thread-global state changed (" + w.substr(11) + "), task " + std::to_string(i); }
+      if (w.compare(0, 18, "history-dependent:") == 0) { out.sig = "mismatch:history:" + w.substr(18); out.detail = "an object answered differently from a fresh object holding the same parameter values (" + w.substr(18) + "), task " + std::to_string(i); }
+      else if (w.compare(0, 11, "global_env:") == 0) { out.sig = "modified:" + w; out.detail = "an operation left process/thread-global state changed (" + w.substr(11) + "), task " + std::to_string(i); }
       else if (w.compare(0, 13, "copy-differs:") == 0) { out.sig = "mismatch:copy:" + w.substr(13); out.detail = w.substr(13) + " evaluated on a fresh copy of the model differs from the value on the original, task " + std::to_string(i); }
       else { out.sig = "modified:" + w; out.detail = "the model passed to " + w + " changed (byte image differs after the call), task " + std::to_string(i); }
       return out;
    }
+   if (g_shared_sm && std::string((const char*)g_shared_sm, ops::sizeof_sm()) != g_shared_sm_bytes) { out.sig = "modified:shared_sm"; out.detail = "the SM object shared by the tasks differs from its state before the run (byte image)"; return out; }
    for (int k = 0; k < NSHARED; ++k) if (!g_shared[k].empty()) {
       if (raw_bytes(g_shared[k]) != g_shared_snap[k].bytes || getters_of(g_shared[k]) != g_shared_snap[k].getters ||
           (g_shared[k].m ? ops::print_mssm(*g_shared[k].m) : ops::print_thdm(*g_shared[k].t)) != g_shared_snap[k].text) {
